@@ -42,7 +42,9 @@ ASSUMPTIONS = [
 ]
 EVIDENCE_NOTES = [
     "ts pool: cached_free_pos is a plain field read and written by every allocator thread (a data race in the code); it is modelled as a sequentially consistent cell.  The model shows that this race WIDENS the known class beyond the alloc_idx ABA: (W1) alloc_idx completes a full cycle between an allocator's read of ptrs[expected] and its successful CAS (ABA); (W2) an allocator writes back a free_idx value loaded before other allocations moved alloc_idx (stale cache); (W3) an allocator's CAS succeeds although another allocator rewrote cached_free_pos after this one compared against it.  Each of W2/W3 alone leads to a double hand-out without any ABA (Example ts_cache_race_refuted).",
-    "ts_no_double_handout_partial is proved for the class complement 'no successful CAS / cache write-back happens inside another allocator's window' expressed by the model's sticky ghost flag t_race; see the theorem's comment for what is missing relative to the full statement",
+    "ts_no_double_handout_partial is proved in full for the finalised class (complement of: >= 2 allocator threads AND the model's sticky ghost flag t_race, raised exactly at W1/W2/W3).  Relative to DESIGN.md's first guess of the class ('alloc_idx completes a full cycle inside one read-to-CAS window') the proved safe region is smaller: W2 and W3 are flagged conservatively (any allocation between load and write-back; any foreign write of cached_free_pos between compare and CAS), although some such interleavings are harmless.",
+    "NOT proved: the visibility statement for the ts pool (every plain read of ptrs[] by the single allocator and every lock-protected write is covered by the thread's view: ghost counter t_uncov = 0).  The side condition ts_mo_ok on the extracted memory orders IS an obligation (c05_memory_orders_sufficient), and when it fails the check explores the model for an uncovered read (model_search), but no theorem 'ts_mo_ok P -> t_uncov = 0' was completed.",
+    "exhaustion exactness is claimed for the sowr pool and for the ts pool with ONE allocator thread (NULL only when exactly cap-1 blocks are out of the ring at the load of free_idx).  With several allocators an allocator may return NULL on a stale expected value although blocks have been freed meanwhile; the independent monitor accepts a NULL iff at some moment during the call at least cap-1 blocks were unavailable.",
     "granularity: the repository is not edited, so plain accesses inside one plain segment (e.g. the plain read of alloc_idx, the compare with cached_free_pos and the read of ptrs[expected]) are atomic together in both the model and the scheduled implementation; finer interleavings of these plain accesses are not explored",
 ]
 
@@ -139,7 +141,7 @@ def _sched(rng, spur=False):
 def generate(rng, tier):
     cases = []
     q = tier == "quick"
-    n_each = 170 if q else 2500
+    n_each = 1000 if q else 12000
     # ts pool, single allocator thread, 1..3 freer threads
     for i in range(n_each):
         cap = rng.range(1, 8)
@@ -349,6 +351,8 @@ def monitor(case, lines):
     pend_alloc = set()       # threads between a successful take and the return note
     pend_free = {}           # thread -> blocks given to free whose release is not yet published
     in_call = {}             # thread -> max number of unavailable blocks seen during its current alloc call
+    obs = {}                 # ts: thread -> line index at which it last observed alloc_idx (call start / own CAS)
+    cas_ok = []              # ts: (line index, thread) of successful CAS operations on alloc_idx
 
     def unavailable():
         return len(owner) + len(pend_alloc) + sum(len(v) for v in pend_free.values())
@@ -374,9 +378,12 @@ def monitor(case, lines):
             return "scheduler reported %s" % ln
         if w[0] == "E":
             t = w[1]
-            if kind == "ts" and w[2] == "casw" and w[3] == "alloc" and w[7] == "1":
-                pend_alloc.add(t)
-                bump()
+            if kind == "ts" and w[2] == "casw" and w[3] == "alloc":
+                obs[t] = i
+                if w[7] == "1":
+                    cas_ok.append((i, t))
+                    pend_alloc.add(t)
+                    bump()
             elif kind in ("ts", "sowr") and w[2] == "store" and w[3] == "free":
                 pend_free.pop(t, None)
             elif kind == "ring" and w[2] == "store":
@@ -385,6 +392,7 @@ def monitor(case, lines):
             t = w[1]
             if w[2] == "a":
                 in_call[t] = unavailable()
+                obs[t] = i
             elif w[2] == "r":
                 seen = in_call.pop(t, None)
                 pend_alloc.discard(t)
@@ -392,8 +400,12 @@ def monitor(case, lines):
                     if kind == "ring":
                         return "ring pool alloc returned NULL"
                     if seen is None or seen < cap - 1:
+                        stale = kind == "ts" and any(j > obs.get(t, -1) and u != t for j, u in cas_ok)
                         return ("exhaustion reported to thread %s although at most %s of %d blocks were unavailable "
-                                "during the call (usable capacity %d)%s" % (t, seen, cap, cap - 1, tag(i)))
+                                "during the call (usable capacity %d)%s%s" % (
+                                    t, seen, cap, cap - 1,
+                                    " [stale-expected: another allocator moved alloc_idx after this thread read it]" if stale else "",
+                                    tag(i)))
                 elif re.match(r"b\d+$", w[3]):
                     b = int(w[3][1:])
                     if len(w) > 4 and w[4] != "DUP":
@@ -444,7 +456,10 @@ def monitor(case, lines):
 
 
 def known_class(case, failure_text):
-    """ts-aba: the ts pool used by >= 2 allocator threads hands a block out twice after one of the racy
+    """ts-stale-null: the ts pool used by >= 2 allocator threads reports exhaustion although free blocks exist,
+    because the NULL test compares free_idx with an alloc_pos derived from a stale expected value (or after a
+    racy window has corrupted the ring accounting).
+    ts-aba: the ts pool used by >= 2 allocator threads hands a block out twice after one of the racy
     windows of the allocation path was hit (alloc_idx ABA, or the racy cached_free_pos)."""
     pool, _ = _scen(case)
     if not pool or pool[0] != "ts" or not failure_text:
@@ -453,6 +468,8 @@ def known_class(case, failure_text):
         return None
     if failure_text.startswith("double hand-out: block") and "[racy-window" in failure_text:
         return "ts-aba"
+    if failure_text.startswith("exhaustion reported") and ("[stale-expected" in failure_text or "[racy-window" in failure_text):
+        return "ts-stale-null"
     return None
 
 
